@@ -481,6 +481,9 @@ def r6(ctx):
             g = prog.fn(cal)
             tops = []
             for rv in g.returns():
+                # an early return of the raw count is fine where it was just seen to be <= 0
+                if rv.e is not None and any(a.ls == estr(unwrap(rv.e)) and a.op in ('<=', '<') and a.rc is not None and a.rc <= 1 for (a, _e) in g.guards(rv)):
+                    continue
                 srcs, _en = value_sources(g, rv.e, rv) if rv.e is not None else ([], False)
                 for x in srcs:
                     c = cval(unwrap(x))
@@ -490,7 +493,7 @@ def r6(ctx):
                         leaves = [cval(unwrap(unwrap(x)['t'])), cval(unwrap(unwrap(x)['f']))]
                         tops.append(max(v for v in leaves if v is not None) if any(v is not None for v in leaves) else None)
                     elif unwrap(x).get('k') in ('call', 'var'):
-                        continue        # the raw queue length: returned as it is only when <= 0, otherwise through the clamps
+                        tops.append(None)        # the raw queue length, not cut by anything
                     else:
                         tops.append(None)
             ok = ok or (any(t_ is not None and t_ > 1 for t_ in tops) and None not in tops and max(tops) <= (size or 0))
